@@ -702,4 +702,76 @@ def build():
     ))
     p.assume_note("ArrayMemmapForwardReducer.__call__: _get_backing_memmap / _reduce_memmap_backed (own contract) / dump / load / dumps are used through summaries; "
                   "the weak map of already dumped arrays answers arbitrarily (finding K23 is about its keying by identity); os.makedirs may find the folder existing")
+    # ---- the worker side of a temporary memmap: load without byte-order conversion, give the reference back exactly once when the array dies
+    def validated(interp, args, kwargs):
+        interp.ctx.events.append(("validate", args[1], args[2]))
+        return Opaque("validated-cm", None, fobj=args[0], mode=args[2])
+
+    p.models["enter:validated-cm"] = lambda i, cm: (cm.attrs["fobj"], cm.attrs["mode"])
+    p.models["exit:validated-cm"] = lambda i, cm, e: False
+    p.models["enter:openfile"] = lambda i, cm: cm
+    p.models["exit:openfile"] = lambda i, cm, e: False
+    p.models["builtin:open"] = lambda i, a, k: Opaque("openfile", None, path=a[0], mode=a[1] if len(a) > 1 else "r")
+    p.models["mmapset.add"] = lambda i, r, a, k: i.ctx.events.append(("joblib-mmaps.add", a[0]))
+
+    def unpickle_stub(interp, args, kwargs):
+        interp.ctx.events.append(("_unpickle", kwargs.get("ensure_native_byte_order", "default"), kwargs.get("filename"), kwargs.get("mmap_mode")))
+        return Opaque("loaded-memmap", None, filename=kwargs.get("filename"))
+
+    ltglob = {"_validate_fileobject_and_memmap": lambda interp: _Fn(validated), "_unpickle": lambda interp: _Fn(unpickle_stub)}
+    p.models["import:._memmapping_reducer.JOBLIB_MMAPS"] = lambda interp: Opaque("mmapset", None)
+    p.models["import:.externals.loky.backend.resource_tracker._resource_tracker"] = lambda interp: Opaque("rtracker", None)
+    p.add(Contract(
+        NP, "load_temporary_memmap", props=["C19", "C20"], globals=ltglob,
+        params=dict(filename=STR, mmap_mode=OneOf("r", "r+", "w+", "c"), unlink_on_gc_collect=BOOL),
+        calls={"add_maybe_unlink_finalizer": lambda interp, args, kwargs: interp.ctx.events.append(("add_finalizer", args[0]))},
+        ensures={"the_mapped_array_is_returned": "is_tag(result, 'loaded-memmap')"},
+        ensures_body={
+            "bytes_reach_the_task_unconverted": "n_events('_unpickle') == 1 and ev_named('_unpickle')[0][1] is False and ev_named('_unpickle')[0][2] is filename",
+            "remembered_as_a_joblib_temporary": "n_events('joblib-mmaps.add') == 1",
+            "reference_given_back_by_a_finalizer_iff_requested": "n_events('add_finalizer') == (1 if unlink_on_gc_collect else 0) and all(e[1] is result for e in ev_named('add_finalizer'))",
+        },
+    ))
+    p.models["weakref.finalize"] = lambda i, a, k: i.ctx.events.append(("weakref.finalize", a[0], a[1], a[2]))
+    p.add(Contract(
+        MR, "add_maybe_unlink_finalizer", props=["C20"], globals=dict(fglob),
+        params=dict(memmap=lambda i: Opaque("loaded-memmap", None, filename=STR.fresh(i.ctx, "fname"))),
+        ensures={},
+        ensures_body={"one_finalizer_that_releases_this_file": "n_events('weakref.finalize') == 1 and ev_named('weakref.finalize')[0][1] is memmap and ev_named('weakref.finalize')[0][3] is memmap.filename"},
+    ))
+    p.models["rtracker.maybe_unlink"] = lambda i, r, a, k: i.ctx.events.append(("maybe_unlink", a[0], a[1]))
+    p.add(Contract(
+        MR, "_log_and_unlink", props=["C20"], globals=dict(fglob),
+        params=dict(filename=STR),
+        ensures={},
+        ensures_body={"gives_back_exactly_one_reference_to_this_file": "n_events('maybe_unlink') == 1 and ev_named('maybe_unlink')[0][1] is filename and ev_named('maybe_unlink')[0][2] == 'file'"},
+    ))
+
+    # ---- results travelling back from a worker: arrays backed by a USER's memmap go back as views of that file, arrays backed by one of
+    # joblib's temporary files go back by value (the temporary may be unlinked as soon as the worker drops it)
+    def backing_back(interp, args, kwargs):
+        k = interp.ctx.choose(3, "result-backed-by")
+        if k == 0:
+            return None
+        m = Opaque("memmapobj", None, isinstance=("ndarray", "memmap"), filename=STR.fresh(interp.ctx, "mfile"))
+        interp.ctx.ghost["BACKING"] = m
+        interp.ctx.ghost["TEMPORARY"] = (k == 2)
+        return m
+
+    p.models["contains:mmapset"] = lambda i, c, item: bool(i.ctx.ghost.get("TEMPORARY"))
+    bglob = dict(fglob)
+    bglob["_get_backing_memmap"] = lambda interp: _Fn(backing_back)
+    bglob["JOBLIB_MMAPS"] = lambda interp: Opaque("mmapset", None)
+    bglob["np"] = lambda interp: Opaque("npmod2", None, memmap=Opaque("npclass", "memmap", classname="memmap"),
+                                        asarray=_Fn(lambda i, a, k: (i.ctx.events.append(("asarray", a[0])), Opaque("plain-copy", None, of=a[0]))[1]))
+    p.add(Contract(
+        MR, "reduce_array_memmap_backward", props=["C19", "C20"], globals=bglob,
+        params=dict(a=lambda i: Opaque("bigarray", None)),
+        ensures={},
+        ensures_body={
+            "views_of_a_users_file_go_back_as_views": "(n_events('_reduce_memmap_backed') == 1) == (BACKING_IS_USER_FILE())",
+            "everything_else_goes_back_by_value": "implies(n_events('_reduce_memmap_backed') == 0, n_events('dumps') == 1 and is_tag(result[0], 'loads-function') and is_tag(ev_named('dumps')[0][1], 'plain-copy'))",
+        },
+    ))
+    p.spec_funcs["BACKING_IS_USER_FILE"] = lambda interp: "BACKING" in interp.ctx.ghost and interp.ctx.ghost.get("TEMPORARY") is False
     return p
